@@ -33,6 +33,8 @@ type tbStats struct {
 	Busts      int            `json:"busts"`
 	Refused    int            `json:"refused_opens"`
 	Hung       int            `json:"hung_histories"`
+	Aborted    int            `json:"dropped_because_the_gate_timer_fired_on_a_starved_harness"`
+	Crashed    int            `json:"crashed_histories"`
 	Distinct   int            `json:"distinct_histories"`
 	Samples    []string       `json:"samples"`
 }
@@ -48,6 +50,7 @@ func mergeTBStats(dst, src *tbStats) {
 	dst.Busts += src.Busts
 	dst.Refused += src.Refused
 	dst.Hung += src.Hung
+	dst.Aborted += src.Aborted
 	for k, v := range src.OpMix {
 		dst.OpMix[k] += v
 	}
@@ -69,12 +72,17 @@ type tbHist struct {
 	st      *tbStats
 	maxSeat int
 	nextID  int
+	expectHand bool // the harness is inside tryOpen … playHand: a hand may be open
 	dead    bool // engine abandoned (refused open holds the lock for 30 s, hang, panic)
 	synth   *SynthBackend
 	planned []int64 // result planned for the running hand (by game index)
 }
 
-func (h *tbHist) line(format string, a ...interface{}) { fmt.Fprintf(h.w, format+"\n", a...) }
+func (h *tbHist) line(format string, a ...interface{}) {
+	s := fmt.Sprintf(format+"\n", a...)
+	h.w.WriteString(s)
+	streamLine(s)
+}
 
 func (h *tbHist) rec(op string, err error) {
 	h.st.Ops++
@@ -84,7 +92,37 @@ func (h *tbHist) rec(op string, err error) {
 	}
 }
 
-func (h *tbHist) obs() { h.line("%s", h.stableObs()) }
+func (h *tbHist) obs() {
+	s := h.stableObs()
+	if h.unexpectedHand() {
+		h.abort()
+		return
+	}
+	h.line("%s", s)
+}
+
+// unexpectedHand: the open-game gate's own 2 s timer (not modelled as a clock) has opened a hand while the harness
+// believed the table to be between hands — only possible when the harness is starved of CPU for seconds. The order
+// of the last operations relative to that open is unknown, so the history is dropped (counted), never judged.
+func (h *tbHist) unexpectedHand() bool {
+	if h.expectHand || h.dead {
+		return false
+	}
+	switch h.rig.live().State.Status {
+	case pokertable.TableStateStatus_TableGameOpened, pokertable.TableStateStatus_TableGamePlaying, pokertable.TableStateStatus_TableGameSettled:
+		return true
+	}
+	return false
+}
+
+func (h *tbHist) abort() {
+	if h.dead {
+		return
+	}
+	h.line("tb abort gate-timer-opened-a-hand-while-the-harness-was-between-hands")
+	h.dead = true
+	h.st.Aborted++
+}
 
 func (h *tbHist) fresh() int { h.nextID++; return h.nextID }
 
@@ -196,6 +234,10 @@ func (h *tbHist) opLeave(ids []int) error {
 	for i, id := range ids {
 		s[i] = pid(id)
 	}
+	if h.unexpectedHand() {
+		h.abort()
+		return nil
+	}
 	err := h.rig.te.PlayersLeave(s)
 	h.line("tb leave ids=%s | %s", joinInts(ids), tbErrName(err))
 	h.rec("leave", err)
@@ -223,6 +265,10 @@ func (h *tbHist) opUpdate(joins []joinSpec, leaves []int) error {
 	ls := make([]string, len(leaves))
 	for i, id := range leaves {
 		ls[i] = pid(id)
+	}
+	if h.unexpectedHand() {
+		h.abort()
+		return nil
 	}
 	_, err := h.rig.te.UpdateTablePlayers(js, ls)
 	ch := []int{}
@@ -361,6 +407,19 @@ func (h *tbHist) planResult(gs *pokerface.GameState) []int64 {
 
 // tryOpen: make the gate fire (all awaited participants signal) and wait for the outcome
 func (h *tbHist) tryOpen() string {
+	if h.unexpectedHand() {
+		h.abort()
+		return "aborted"
+	}
+	h.expectHand = true
+	out := h.tryOpen1()
+	if out != "opened" {
+		h.expectHand = false
+	}
+	return out
+}
+
+func (h *tbHist) tryOpen1() string {
 	ids, _ := h.gateParticipants()
 	pre := h.table().State.GameCount
 	preSnaps := h.rig.snapCount()
@@ -449,6 +508,12 @@ func (r *Rig) fullObsNoLock() string { return r.fullObs(nil) }
 
 // playHand: everybody asked answers ready → the synthetic backend closes the hand → settle → continue
 func (h *tbHist) playHand() bool {
+	ok := h.playHand1()
+	h.expectHand = false
+	return ok
+}
+
+func (h *tbHist) playHand1() bool {
 	t := h.table()
 	gidx := append([]int{}, t.State.GamePlayerIndexes...)
 	ids := []int{}
@@ -525,6 +590,53 @@ func (h *tbHist) playHand() bool {
 	h.rec("continue", nil)
 	h.obs()
 	return true
+}
+
+// openAttemptDuringHand: while a hand runs, (sometimes pause the table and) set the gate up for the next game count and
+// let everybody signal — the resume path of a paused table. The gate fires; the open must be refused because a hand is
+// unsettled (C07). The gate is set up again by the continue step after the hand.
+func (h *tbHist) openAttemptDuringHand() {
+	t := h.table()
+	if t.State.GameState == nil || t.State.Status != pokertable.TableStateStatus_TableGamePlaying {
+		return
+	}
+	pre := t.State.GameCount
+	if h.r.Intn(2) == 0 {
+		h.opSimple("pause")
+	}
+	ids := []int{}
+	for _, p := range h.table().State.PlayerStates {
+		if p.IsIn && p.Bankroll > 0 {
+			ids = append(ids, idNum(p.PlayerID))
+		}
+	}
+	if len(ids) < 2 {
+		return
+	}
+	h.opSetup(pre+1, ids)
+	allOK := true
+	for _, k := range h.r.Perm(len(ids)) {
+		if h.opFinish(ids[k]) != nil {
+			allOK = false
+		}
+	}
+	if !allOK {
+		return // somebody stays awaited: the gate would only fire on its 2 s timer, which the model does not have
+	}
+	// everybody signalled: the gate's callback runs at once
+	time.Sleep(3 * time.Millisecond)
+	schedBarrier(3)
+	outcome := "nothing"
+	if h.table().State.GameCount != pre {
+		outcome = "opened"
+	}
+	h.line("tb fire ch=-1 create=1 | %s", outcome)
+	h.rec("fire", nil)
+	h.obs()
+	if outcome == "opened" {
+		h.dead = true // a second hand on top of an unsettled one: nothing after this is comparable
+	}
+	h.st.OpMix["open-attempt-during-hand"]++
 }
 
 func (h *tbHist) emptySeats() []int {
@@ -681,10 +793,23 @@ func (h *tbHist) betweenHands(inHand bool) {
 				ante = bb / 10
 			}
 			h.opBlind(lv, ante, 0, bb/2, bb)
-		case x < 90:
+		case x < 88:
 			h.malformed(inHand)
-		case x < 93:
+		case x < 90: // lifecycle calls: pause, close, release (later opens must be refused; the hand in progress is settled)
+			switch h.r.Intn(4) {
+			case 0, 1:
+				h.opSimple("pause")
+			case 2:
+				h.opSimple("close")
+			default:
+				h.opSimple("release")
+			}
+		case x < 92:
 			h.opFinish(900)
+		case x < 96:
+			if inHand {
+				h.openAttemptDuringHand()
+			}
 		default:
 			if len(ids) > 0 {
 				h.opJoin(ids[h.r.Intn(len(ids))]) // already in
@@ -798,6 +923,17 @@ func genTBHistory(r *rand.Rand, st *tbStats, hid int, maxHands int) string {
 			}
 		}
 	}
+	if viaMgr != nil && !h.dead && r.Intn(2) == 0 {
+		// mgr mode: close or release through the manager (which then forgets the table), then keep calling
+		if r.Intn(2) == 0 {
+			h.opSimple("close")
+		} else {
+			h.opSimple("release")
+		}
+		for i := 0; i < 3 && !h.dead; i++ {
+			h.betweenHands(false)
+		}
+	}
 	h.line("tb end")
 	return h.w.String()
 }
@@ -810,59 +946,121 @@ func runTable(args []string) {
 	statsFile := fs.String("stats", "", "stats json")
 	workers := fs.Int("workers", 12, "parallel tables")
 	maxHands := fs.Int("hands", 8, "max hands per history")
+	child := fs.Bool("child", false, "child process: histories [from,to), one table at a time")
+	inproc := fs.Bool("inproc", false, "generate in this process (mgr mode: all tables share one manager)")
+	from := fs.Int("from", 0, "first history (child)")
+	to := fs.Int("to", -1, "one past the last history (child)")
+	stream := fs.String("stream", "", "append every line to this file at once (single-history child)")
 	fs.Parse(args)
 
 	devnull, _ := os.OpenFile(os.DevNull, os.O_WRONLY, 0)
 	os.Stdout = devnull
 
+	// one history, with its own PRNG stream, never taking the process down with a harness panic or a hang
+	one := func(hid int) (string, *tbStats) {
+		r := rand.New(rand.NewSource(*seed*7919 + int64(hid)*104729 + 1))
+		sub := newTBStats()
+		var s string
+		done := make(chan struct{})
+		go func() {
+			defer func() {
+				if e := recover(); e != nil {
+					s = fmt.Sprintf("# harness goroutine panic: %v\n", e)
+				}
+				close(done)
+			}()
+			s = genTBHistory(r, sub, hid, *maxHands)
+		}()
+		select {
+		case <-done:
+		case <-time.After(60 * time.Second):
+			s = fmt.Sprintf("tb hang h=%d\n", hid)
+			sub.Hung++
+		}
+		return s, sub
+	}
+
+	if *child {
+		f, err := os.Create(*out)
+		if err != nil {
+			fmt.Fprintln(os.Stderr, err)
+			os.Exit(2)
+		}
+		if *stream != "" {
+			streamTo, _ = os.Create(*stream)
+		}
+		for hid := *from; hid < *to; hid++ {
+			s, sub := one(hid)
+			b, _ := json.Marshal(sub)
+			f.WriteString(s)
+			if !strings.HasSuffix(s, "\n") {
+				f.WriteString("\n")
+			}
+			fmt.Fprintf(f, "#stats %d %s\n", hid, b)
+		}
+		f.Close()
+		return
+	}
+
+	st := newTBStats()
+	seen := map[uint64]bool{}
+	add := func(s string, sub *tbStats) {
+		seen[fnv64(stripHistID(s))] = true
+		if len(st.Samples) < 2 && len(s) < 6000 {
+			st.Samples = append(st.Samples, s)
+		}
+		if sub != nil {
+			mergeTBStats(st, sub)
+		}
+	}
 	f, err := os.Create(*out)
 	if err != nil {
 		fmt.Fprintln(os.Stderr, err)
 		os.Exit(2)
 	}
 	w := bufio.NewWriterSize(f, 1<<20)
-	st := newTBStats()
-	seen := map[uint64]bool{}
-	var mu sync.Mutex
-	var wg sync.WaitGroup
-	per := (*n + *workers - 1) / *workers
-	for wk := 0; wk < *workers; wk++ {
-		wg.Add(1)
-		go func(wk int) {
-			defer wg.Done()
-			r := rand.New(rand.NewSource(*seed*7919 + int64(wk)*104729))
-			for i := 0; i < per && wk*per+i < *n; i++ {
-				sub := newTBStats()
-				hid := wk*per + i
-				var s string
-				done := make(chan struct{})
-				go func() {
-					defer func() {
-						if e := recover(); e != nil {
-							s = fmt.Sprintf("# harness goroutine panic: %v\n", e)
-						}
-						close(done)
-					}()
-					s = genTBHistory(r, sub, hid, *maxHands)
-				}()
-				select {
-				case <-done:
-				case <-time.After(60 * time.Second):
-					s = fmt.Sprintf("tb hang h=%d\n", hid)
-					sub.Hung++
+	if *inproc {
+		var mu sync.Mutex
+		var wg sync.WaitGroup
+		next := 0
+		for wk := 0; wk < *workers; wk++ {
+			wg.Add(1)
+			go func() {
+				defer wg.Done()
+				for {
+					mu.Lock()
+					hid := next
+					next++
+					mu.Unlock()
+					if hid >= *n {
+						return
+					}
+					s, sub := one(hid)
+					mu.Lock()
+					w.WriteString(s)
+					add(s, sub)
+					mu.Unlock()
 				}
-				mu.Lock()
-				w.WriteString(s)
-				seen[fnv64(stripHistID(s))] = true
-				if len(st.Samples) < 2 && len(s) < 6000 {
-					st.Samples = append(st.Samples, s)
-				}
-				mergeTBStats(st, sub)
-				mu.Unlock()
+			}()
+		}
+		wg.Wait()
+	} else {
+		pass := []string{"-seed", fmt.Sprint(*seed), "-hands", fmt.Sprint(*maxHands)}
+		recs, crashes, unattributed := superviseRun("table", "tb", pass, *n, *workers, *out)
+		for _, rc := range recs {
+			w.WriteString(rc.text)
+			var sub *tbStats
+			if rc.stats != nil {
+				sub = newTBStats()
+				json.Unmarshal(rc.stats, sub)
 			}
-		}(wk)
+			add(rc.text, sub)
+		}
+		st.Crashed = crashes
+		for i := 0; i < unattributed; i++ {
+			w.WriteString("cc anomaly CRASH.unattributed-engine-panic\n")
+		}
 	}
-	wg.Wait()
 	w.Flush()
 	f.Close()
 	st.Distinct = len(seen)
